@@ -1,4 +1,5 @@
 mod conv;
+mod diag;
 mod expr;
 mod golden;
 mod ledger;
@@ -29,6 +30,7 @@ fn main() {
         "ledger" => runner::run_records(&opts, ledger::replay),
         "ledger-alias" => { let w = workdir.clone(); runner::run_records(&opts, move |i, r| ledger::replay_alias(i, r, &w)) }
         "conv" => { let w = workdir.clone(); runner::run_records(&opts, move |i, r| conv::replay(i, r, &w)) }
+        "diag" => { let w = workdir.clone(); runner::run_records(&opts, move |i, r| diag::replay(i, r, &w)) }
         "expr" => runner::run_records(&opts, expr::replay),
         "literal" => runner::run_records(&opts, literal::replay),
         "literal-space" => runner::run_records(&opts, literal::replay_space),
